@@ -3,12 +3,12 @@
 use cgmath::prelude::*;
 use cgmath::{Point3, Quaternion};
 
-use crate::clause;
-use crate::conv::*;
-use crate::fw::{Case, Clause};
-use crate::gen::{self, Rng, Tier};
-use crate::model::*;
-use crate::sc::{Ck, Sc};
+use cgv_core::clause;
+use cgv_core::conv::*;
+use cgv_core::fw::{Case, Clause};
+use cgv_core::gen::{self, Rng, Tier};
+use cgv_core::model::*;
+use cgv_core::sc::{Ck, Sc};
 
 fn g_alg(rng: &mut Rng, tier: Tier) -> Case {
     let mut c = Case::new();
@@ -52,7 +52,7 @@ fn algebra<S: Sc>(case: &Case, ck: &mut Ck<S>) {
     ck.eq("dot vs model", qp.dot(qq), vdot(p, q));
     // inverse (p != 0 unless all four components are zero)
     let n2 = qnorm2(p);
-    if S::t_eq(&n2, &S::i(0)) == crate::iv::Tri::False {
+    if S::t_eq(&n2, &S::i(0)) == cgv_core::iv::Tri::False {
         let inv = Rotation::invert(&qp);
         ck.eqv("p*invert(p) = 1", qt(qp * inv), [S::i(1), S::i(0), S::i(0), S::i(0)]);
         ck.eqv("invert(p)*p = 1", qt(inv * qp), [S::i(1), S::i(0), S::i(0), S::i(0)]);
